@@ -35,6 +35,7 @@ Verdict ==
     IF Done
     THEN PrintT("@@V" \o ToJson([tid |-> tid, fail |-> IF Running(s.m) THEN {"spec-still-running"} ELSE Failing,
                                   spec |-> [cause |-> s.m.status, ops |-> s.m.ops, out |-> s.m.out, vals |-> s.vals,
-                                            ncalls |-> s.ncalls, topop |-> TopOp(s.m)]]))
+                                            ncalls |-> s.ncalls, topop |-> TopOp(s.m),
+                                            badmem |-> {<<Obs.mem[k][1], DevWord(s, Ext(Obs.mem[k][1], AW))>> : k \in {q \in 1..Len(Obs.mem) : DevWord(s, Ext(Obs.mem[q][1], AW)) # Obs.mem[q][2]}}]]))
     ELSE TRUE
 =============================================================================
